@@ -324,6 +324,11 @@ func init() {
 		sb.WriteString("def builderCloseDeferAssigned : List String := " + LeanStrList(deferAssigned) + "\n")
 		sb.WriteString("def builderCloseVarDecls : List String := " + LeanStrList(declared) + "\n")
 		sb.WriteString("def builderCloseDeferCalls : List String := " + LeanStrList(deferBodyCalls(bc)) + "\n")
+		r10, err := c01Round10Facts(repo)
+		if err != nil {
+			return "", err
+		}
+		sb.WriteString(r10)
 		return sb.String(), nil
 	}})
 }
